@@ -211,10 +211,13 @@ def run_history_impl(w, rng, ops):
             else:
                 py = lines[1].split(b".")
                 if len(py) >= 5:
+                    # (always a value that differs from the RUNNING interpreter's, so that a second `foreign` cannot restore it)
+                    import sys as _sys
+
                     if rng.random() < 0.5:
-                        py[3] = b"candidate" if py[3] != b"candidate" else b"final"
+                        py[3] = b"candidate" if _sys.version_info.releaselevel != "candidate" else b"final"
                     else:
-                        py[4] = b"1" if py[4] != b"1" else b"2"
+                        py[4] = str(_sys.version_info.serial + 1).encode()
                     new = lines[0] + b"\n" + b".".join(py) + b"\n" + lines[2]
                 else:
                     new = b"0.0.0-other\n" + lines[1] + b"\n" + lines[2]
